@@ -103,8 +103,30 @@ def build(run):
     return unit
 
 
+def explore(run):
+    """Bounded run-time-checked contract on the REAL refinement subtyping judgement (Context::subtype_of on {I: Int | P} / {I: Int | Q}):
+    covers the compound arms of is_super_pred_of that are R2-erased in the Verus unit ((And, And), (Or, Or), (lhs, Or), (Or, rhs)...)."""
+    import json
+    import subprocess
+    from vlib import replay as rp
+    binary = rp.build(run, 'c03')
+    p = subprocess.run([binary], capture_output=True, text=True, timeout=1200)
+    lines = [ln for ln in p.stdout.split('\n') if ln.strip().startswith('{')]
+    if not lines:
+        return {"found": False, "note": "replay produced no result: %s" % p.stderr[-300:]}
+    j = json.loads(lines[-1])
+    run.extra["bounded_contract_on_refinement_subtyping"] = {"pairs": j.get("pairs"), "accepted": j.get("accepted"),
+        "universe": "P, Q over the 12 comparison atoms (==, !=, >=, <=) x constants {-1, 0, 2} and all conjunctions and disjunctions of two of them (144 predicates, all pairs)",
+        "contract": "accepted => every integer of -6..=8 satisfying P satisfies Q (soundness only)"}
+    fds = [{"key": v["pair"], "verdict": "%s, but I = %d satisfies the first predicate and not the second" % (v["pair"], v["witness"]),
+            "how": "the real Context::subtype_of on refinement types built with the real Predicate constructors; denotation evaluated independently",
+            "input": {"pair": v["pair"], "witness": v["witness"]}, "oracle": "set inclusion of the two predicates on -6..=8", "replay_cmd": binary} for v in j.get("violations", [])]
+    return {"found": bool(fds), "findings": fds, "note": "%d pairs, %d accepted, %d unsound acceptances" % (j.get("pairs", 0), j.get("accepted", 0), len(fds))}
+
+
 def run(run, replay=None):
     from units.C03 import cex as _cex
+    run.explorations.append(("refinement subtyping", lambda: explore(run)))
     run.fallbacks.append(("refinement subtyping (programs checked by the real compiler)", lambda: _cex.find(run)))
     unit = build(run)
     res = unit.run(rlimit=60)
